@@ -70,3 +70,14 @@ def k2_eq_hash(prop, repo, verif, workdir, tier, seed, log):
     bound = ("bounded: exhaustive in cache histories (symbolic observer calls per operand, arbitrary lazy-sort cache state), "
              "sampled in data (fixed catalogue: ASCII, multi-byte, invalid UTF-8, equal/unequal pairs)")
     return [K.run_set("eq_hash", prop, repo, verif, workdir, mods, hs, log, bounded=bound, jobs=10, timeout=600, extra=("-Z", "stubbing"))]
+
+
+def k4_with_indices(prop, repo, verif, workdir, tier, seed, log):
+    mods = {"src/with_indices.rs": [os.path.join(verif, "kani", "with_indices.rs")]}
+    hs = [("substring_mixed_width", "WithIndices<&str>::substring.get_unchecked.pre(1-3 byte chars)"),
+          ("substring_last_char_multibyte", "WithIndices<&str>::substring.get_unchecked.pre(last char multi-byte)"),
+          ("substring_astral", "WithIndices<&str>::substring.get_unchecked.pre(4-byte char)"),
+          ("substring_ascii", "WithIndices<&str>::substring.get_unchecked.pre(ascii)"),
+          ("substring_empty", "WithIndices<&str>::substring.get_unchecked.pre(empty)")]
+    bound = "bounded: text from a 5-entry catalogue; start_index/end_index symbolic over all of usize x usize (complete in the indices)"
+    return [K.run_set("with_indices", prop, repo, verif, workdir, mods, hs, log, bounded=bound, jobs=6, timeout=600)]
